@@ -20,15 +20,20 @@ What is proved here (model M4, where every `expect("inconsistent state")`, `unre
 * the three `debug_assert!`s of `ConnectionState::remove_call` (`call_function_reply`, `abort_call`, the deferred
   `remove_function_call` items) hold in every turn of `Broker::run`, by the cross-reference invariant of the call
   tables proved for C02 (`remove_call_asserts_hold`; reachable states with fewer than 2³² pending calls);
-Partial: the remaining `expect("inconsistent state")` sites are cross-reference lookups between the
-broker's maps; their unreachability is the registry / call / subscription consistency invariant, which
-is not proved. It is covered by the correspondence runs of the "abuse" profile (the model reports the
+* the cross-reference lookups of the call handlers cannot fail in a reachable state (registry invariant of C03,
+  callee-side invariant of C02): `call_reply_lookups_hold` — `call_function_reply` never returns one of its
+  `expect("inconsistent state")` results —, `remove_service_lookups_hold` — neither `remove_service` nor the loop over
+  the calls the service holds does —, `call_function_lookups_hold`;
+Partial: the remaining `expect("inconsistent state")` sites (subscriptions, introspection, the owner lookups of the
+event handlers) are cross-reference lookups whose unreachability needs the subscription / introspection parts of the
+consistency invariant, which are not proved. It is covered by the correspondence runs of the "abuse" profile (the model reports the
 panic site by name, the harness catches panics around every poll and checks that every live connection
 is still answered at the end of each scenario).
 -/
 import Aldrin.Lemmas.Broker.Gauge
 import Aldrin.Lemmas.Broker.Events
 import Aldrin.Lemmas.Broker.CallAsserts
+import Aldrin.Lemmas.Broker.Callee
 
 namespace Aldrin.Broker
 
@@ -98,6 +103,109 @@ theorem remove_call_asserts_hold :
    fun hs serial cid result rest conn hq hc => loop_remove_call_assert_holds hs.xref hq hc⟩
 
 
+
+/-- **`call_function_reply` finds what it looks up.** In every reachable state, whoever sends whatever reply: the
+object and the service of the call are found (`expect("inconsistent state")` ×2). -/
+theorem call_reply_lookups_hold {b : Broker} {w : Work} (h : Reachable b w) (id : ConnId) (serial : Nat) (r : CallResult) (site : String) :
+    callFunctionReply ⟨b, w, []⟩ id serial r ≠ .error (.inconsistent site) := by
+  intro he
+  unfold callFunctionReply at he
+  split at he
+  · simp [okH] at he
+  · split at he
+    · simp [okH] at he
+    · rename_i call hcall
+      obtain ⟨sv, info, o, owner, q1, _, _, q4, _, _⟩ := callee_of_call (s := ⟨b, w, []⟩) h.cal h.reg.2 hcall
+      simp only [q4] at he
+      split at he
+      · simp [okH] at he
+      · simp only [St.setCalls_b_svcs, q1] at he
+        repeat' (split at he)
+        all_goals (simp [okH] at he)
+
+theorem calls_no_error {k : Uuid × Uuid} {l : List Nat} {t : St} {e : Panic} (hc : Cal (some (k, l)) t)
+    (he : removeService.calls t l = .error e) : False := by
+  obtain ⟨s1, hs1⟩ := removeService_calls_no_panic l t hc
+  rw [hs1] at he; cases he
+
+/-- **`remove_service` finds what it looks up.** In every reachable state, for every cookie: the service entry is
+found, and so is every call the entry holds (`expect("inconsistent state")` ×2). -/
+theorem remove_service_lookups_hold {b : Broker} {w : Work} (h : Reachable b w) (c : Cookie) :
+    ∃ s', removeService ⟨b, w, []⟩ c = .ok s' := by
+  have hcal := h.cal
+  have hreg := h.reg.2
+  unfold removeService
+  split
+  · exact ⟨_, rfl⟩
+  · rename_i objId svcUuid info hu
+    have h5 := hreg.i5 c objId svcUuid info hu
+    simp only [sk, skl] at h5
+    split at h5
+    · rename_i svc hsv
+      simp only [St.setSvcUuids_b_svcs, hsv]
+      have hmid : Cal (some ((objId.uuid, svcUuid), svc.calls)) ((match AL.find? objId.uuid (((⟨b, w, []⟩ : St).setSvcUuids (AL.erase c b.svcUuids)).setSvcs
+            (AL.erase (objId.uuid, svcUuid) b.svcs)).b.objs with
+          | some o => (((⟨b, w, []⟩ : St).setSvcUuids (AL.erase c b.svcUuids)).setSvcs (AL.erase (objId.uuid, svcUuid) b.svcs)).setObjs
+                (AL.insert objId.uuid { o with svcs := sremove c o.svcs }
+                  (((⟨b, w, []⟩ : St).setSvcUuids (AL.erase c b.svcUuids)).setSvcs (AL.erase (objId.uuid, svcUuid) b.svcs)).b.objs)
+          | none => ((⟨b, w, []⟩ : St).setSvcUuids (AL.erase c b.svcUuids)).setSvcs (AL.erase (objId.uuid, svcUuid) b.svcs))) := by
+        refine Cal.of_views (CalleeP.drop_entry hcal (k := (objId.uuid, svcUuid)) (l := svc.calls) (scv_find hsv)) ?_ ?_
+        · intro bs; split <;> simp [gk]
+        · intro k
+          have : ∀ t : St, t.b.svcs = AL.erase (objId.uuid, svcUuid) b.svcs → scv t k = upd (scv ⟨b, w, []⟩) (objId.uuid, svcUuid) none k := by
+            intro t ht
+            simp only [scv, ht, scl_erase, upd_apply]
+          split <;> exact this _ (by simp)
+      split
+      · rename_i e heq
+        exfalso
+        refine calls_no_error (k := (objId.uuid, svcUuid)) ?_ heq
+        exact Cal.of_eq hmid rfl rfl
+      · exact ⟨_, rfl⟩
+    · simp at h5
+
+/-- **`call_function` finds what it looks up.** In every reachable state, whoever calls whatever: the object of the
+service, its owner's connection and the service entry are found (`expect("inconsistent state")` ×3). -/
+theorem call_function_lookups_hold {b : Broker} {w : Work} (h : Reachable b w) (id : ConnId) (serial : Nat) (svc : Cookie) (f : Nat)
+    (v : Option Nat) (p : Payload) (site : String) :
+    callFunctionImpl ⟨b, w, []⟩ id serial svc f v p ≠ .error (.inconsistent site) := by
+  intro he
+  have hreg := h.reg.2
+  unfold callFunctionImpl at he
+  split at he
+  · simp [okH] at he
+  · rename_i conn hconn
+    split at he
+    · simp at he
+    · rename_i objId svcUuid info hsvc
+      rcases hreg.i7 svc objId svcUuid info hsvc with ⟨_, o, ho, _⟩ | ⟨l, hl, _⟩
+      · simp only [obv] at ho
+        simp only [ho] at he
+        split at he
+        · simp [errH] at he
+        · rcases hreg.i3 _ o ho with ⟨lo, hlo, _⟩ | ⟨lo, hlo, _⟩
+          · simp only [ro] at hlo
+            split at hlo
+            · rename_i owner hown
+              have h5 := hreg.i5 svc objId svcUuid info hsvc
+              simp only [sk, skl] at h5
+              split at h5
+              · rename_i sv hsv
+                have e1 : ∀ t : St, t.b.conns = AL.insert id { conn with calls := conn.calls ++ [(serial, ((b.calls.insert (⟨serial, id, objId.uuid, svcUuid, false⟩ : Call)).2, o.conn))] } b.conns →
+                    ∃ callee, t.conn? o.conn = some callee := by
+                  intro t ht
+                  simp only [St.conn?, ht, AL.find?_insert]
+                  split
+                  · exact ⟨_, rfl⟩
+                  · exact ⟨owner, hown⟩
+                obtain ⟨callee, hcallee⟩ := e1 (((⟨b, w, []⟩ : St).setCalls (b.calls.insert (⟨serial, id, objId.uuid, svcUuid, false⟩ : Call)).1).setConn id
+                  { conn with calls := conn.calls ++ [(serial, ((b.calls.insert (⟨serial, id, objId.uuid, svcUuid, false⟩ : Call)).2, o.conn))] }) (by simp)
+                simp only [hcallee, St.setConn_b_svcs, St.setCalls_b_svcs, hsv] at he
+                simp [okH] at he
+              · simp at h5
+            · simp at hlo
+          · simp at hlo
+      · simp at hl
 
 /-! non-vacuity: abuse by connection 1 (wrong direction, then it is gone); connection 0 is still served -/
 example : (match run {} {} [.newConn 0 20, .newConn 1 14, .msg 1 (.other 31), .msg 1 (.sync 5), .msg 0 (.sync 6)] with
